@@ -140,12 +140,18 @@ pub mod verif_driver {
         In(String, Vec<String>),
         DeepNot(usize),
         RangeGte(String, String),
+        /// MetadataFilter { filter_type: None }
+        Hole,
+        /// RangeMatch without a bound
+        RangeNoBound(String),
     }
 
     pub fn flt_to_proto(f: &Flt) -> Option<MetadataFilter> {
         use kyrodb::metadata_filter::FilterType;
         let ft = match f {
             Flt::None => return None,
+            Flt::Hole => return Some(MetadataFilter { filter_type: None }),
+            Flt::RangeNoBound(k) => FilterType::Range(RangeMatch { key: k.clone(), bound: None }),
             Flt::Exact(k, v) => FilterType::Exact(ExactMatch { key: k.clone(), value: v.clone() }),
             Flt::Not(g) => FilterType::NotFilter(Box::new(NotFilter { filter: flt_to_proto(g).map(Box::new) })),
             Flt::Or(fs) => FilterType::OrFilter(OrFilter { filters: fs.iter().filter_map(flt_to_proto).collect() }),
